@@ -151,7 +151,9 @@ func c16Jobs(c *pure.Ctx) {
 		{"spec.configName", []variant{{"absent", nil}, {"jc", "jc"}, {"jcopt", "jcopt"}, {"jcraw", "jcraw"}, {"missing", "missing"}}},
 		{"spec.optionValues", []variant{{"absent", nil}, {"json", `{"o":"OPT","r":"R"}`}, {"yaml", "r: R\n"}, {"junk", "{{{"}}},
 		{"spec.substitutions", []variant{{"absent", nil}, {"explicit", obj{"option.o": "EXPL", "job.name": "X"}}}},
-		{"metadata.labels", []variant{{"absent", nil}, {"set", obj{"a": "b", "from": "user"}}}},
+		{"metadata.labels", []variant{{"absent", nil}, {"set", obj{"a": "b", "from": "user"}},
+			// copied from an older Job: the reserved label still names another (recreated) JobConfig
+			{"stale-uid", obj{"a": "b", "from": "user", "execution.furiko.io/job-config-uid": "00000000-stale-uid"}}}},
 		{"metadata.annotations", []variant{{"absent", nil}, {"set", obj{"x": "y"}}}},
 		{"metadata.finalizers", []variant{{"absent", nil}, {"other", []interface{}{"example.com/other"}}, {"ours", []interface{}{"execution.furiko.io/delete-dependents-finalizer"}}}},
 	}
@@ -341,7 +343,7 @@ func c16JudgeJob(c *pure.Ctx, b *mc.Base, jcs map[string]*execution.JobConfig, d
 	if got.Labels["execution.furiko.io/job-config-uid"] != string(jc.UID) {
 		fail("JobConfig UID label missing or wrong")
 	}
-	if pick["metadata.labels"] == "set" && (got.Labels["a"] != "b" || got.Labels["from"] != "user") {
+	if pick["metadata.labels"] != "absent" && (got.Labels["a"] != "b" || got.Labels["from"] != "user") {
 		fail("submitter's labels do not take precedence over the template's")
 	}
 	if pick["metadata.labels"] == "absent" && got.Labels["from"] != "template" {
